@@ -145,6 +145,80 @@ example : Parsed demo HDR demoRecs :=
 example : (List.range 5).map (rearranged demo demoRecs) = [1, 9, 3, 0, 0] := by decide
 example : Fits demoRecs := by unfold Fits; decide
 
+/-! ### a regular file has an end: `scanE` -/
+
+/-- **the EOF rule only ever ends the scan early**: whatever `scanE` accepts, `scan` accepts with the same result, so
+    every theorem above about an accepted stream (`pread_flat_rearranged`, `get_chunk_rearranged`, …) holds for `scanE`. -/
+theorem scanE_ok_scan (f : File) (fsz : Nat) : ∀ (fuel : Nat) (s s' : Scan),
+    scanE f fsz fuel s = .ok s' → scan f fuel s = .ok s' := by
+  intro fuel
+  induction fuel with
+  | zero => intro s s' h; simp [scanE] at h
+  | succ n ih =>
+    intro s s' h
+    unfold scanE at h
+    unfold scan
+    split at h
+    · simp at h
+    · simp only at h ⊢
+      split
+      · split at h
+        · exact h
+        · rename_i h1 h2; exact absurd h1 h2
+      · rename_i hp
+        rw [if_neg hp] at h
+        split
+        · rename_i hn; rw [if_pos hn] at h; simp at h
+        · rename_i hn
+          rw [if_neg hn] at h
+          split
+          · rename_i hs; rw [if_pos hs] at h; simp at h
+          · rename_i hs
+            rw [if_neg hs] at h
+            split <;> rename_i hm <;> rw [hm] at h <;> simp only at h
+            · split
+              · rename_i hu; rw [if_pos hu] at h; simp at h
+              · rename_i hu; rw [if_neg hu] at h; exact ih _ _ h
+            · simp at h
+            · simp at h
+
+/-- **a file that contains every header the scan reads is scanned as before**: when no record header lies behind the
+    end of the file, `scanE` is `scan`. -/
+theorem scanE_eq_scan_of_no_eof (f : File) (fsz : Nat) (h : ∀ p, hdrBehindEof fsz p = false) :
+    ∀ (fuel : Nat) (s : Scan), scanE f fsz fuel s = scan f fuel s := by
+  intro fuel
+  induction fuel with
+  | zero => intro s; simp [scanE, scan]
+  | succ n ih =>
+    intro s
+    unfold scanE scan
+    rw [h s.flatpos]
+    simp only [Bool.false_eq_true, if_false]
+    split
+    · rfl
+    · split
+      · rfl
+      · split
+        · rfl
+        · split
+          · split
+            · rfl
+            · exact ih _
+          · rfl
+          · rfl
+
+/-- **a stream without end marker is refused**: a header behind the end of a regular file ends the scan with an error,
+    never with an accepted map. -/
+theorem scanE_eof_refused (f : File) (fsz fuel : Nat) (s : Scan) (h : hdrBehindEof fsz s.flatpos = true) :
+    scanE f fsz (fuel + 1) s = .err .eof s.flatpos := by
+  unfold scanE; simp [h]
+
+set_option maxRecDepth 8000 in
+example : scanE demo 4132 8 init = .ok demoScan := by decide
+example : hdrBehindEof 4096 4096 = true := by decide
+set_option maxRecDepth 8000 in
+example : scanE (fun i => if i < 16 then magic.getD i 0 else 0) 4096 3 init = .err .eof 4096 := by decide
+
 /-- a split set of two files (frames 2-4 in the window [0,11), frames 12-13 in [11,33)) -/
 def demoB : List Body := [⟨0, 11, [⟨2, 3, 16384⟩]⟩, ⟨11, 33, [⟨12, 2, 16384⟩]⟩]
 
